@@ -33,7 +33,11 @@ fn rename(e: &Exp, from: &str, to: &str) -> Exp {
 fn collision_case(r: &mut Rng) -> Case {
     let v = |n: &str| Exp::Variable(n.into());
     let k = |x: f64| Exp::Number(x);
-    let (aux, aux_ty, trigger): (&str, VariableType, Exp) = match r.below(8) {
+    let (aux, aux_ty, trigger): (&str, VariableType, Exp) = match r.below(12) {
+        8 => ("$min_0", VariableType::Real(-3.0, 3.0), Exp::BinOp(BinOp::Add, Box::new(Exp::Min(vec![v("z"), v("y")])), Box::new(k(0.0)))),
+        9 => ("$max_0_select_0", VariableType::Boolean, Exp::BinOp(BinOp::Add, Box::new(Exp::Max(vec![v("z"), v("y")])), Box::new(k(0.0)))),
+        10 => ("$min_0_select_1", VariableType::Boolean, Exp::BinOp(BinOp::Add, Box::new(Exp::Min(vec![v("z"), v("y")])), Box::new(k(0.0)))),
+        11 => ("$and_1", VariableType::Boolean, Exp::BinOp(BinOp::Add, Box::new(Exp::And(vec![v("a"), Exp::And(vec![v("b"), v("a")])])), Box::new(Exp::BinOp(BinOp::Add, Box::new(Exp::And(vec![v("b"), v("a")])), Box::new(v("y")))))),
         0 => ("$or_0", VariableType::Boolean, Exp::BinOp(BinOp::Add, Box::new(Exp::Or(vec![v("a"), v("b")])), Box::new(v("y")))),
         1 => ("$and_0", VariableType::Boolean, Exp::BinOp(BinOp::Add, Box::new(Exp::And(vec![v("a"), v("b")])), Box::new(v("y")))),
         2 => ("$xor_0", VariableType::Boolean, Exp::BinOp(BinOp::Add, Box::new(Exp::Xor(Box::new(v("a")), Box::new(v("b")))), Box::new(v("y")))),
@@ -87,6 +91,122 @@ fn check_missing_bounds(m: &Model, c: &mut Case) {
     }
 }
 
+/// coverage boost for the reified logic auxiliaries (`$iff_k`, `$implies_k`, `$xor_k`, `$and_k`, `$or_k`) and the
+/// `NonBinaryLogicOperand` error: a logic operator in VALUE position, operands Boolean variables, 0/1 literals,
+/// negations, or (hostile) a real variable / the literal 2.
+fn logic_aux_case(r: &mut Rng) -> Case {
+    let v = |n: &str| Exp::Variable(n.into());
+    let k = |x: f64| Exp::Number(x);
+    let mut operand = |r: &mut Rng| -> Exp {
+        match r.below(9) {
+            0 | 1 => v("a"), 2 | 3 => v("b"), 4 => Exp::Not(Box::new(v("c"))), 5 => v("c"),
+            6 => k(if r.chance(1, 2) { 1.0 } else { 0.0 }),
+            7 => v("y"),          // not Boolean: NonBinaryLogicOperand
+            _ => k(2.0),          // not 0/1: NonBinaryLogicOperand
+        }
+    };
+    let x = operand(r); let y = operand(r);
+    let logic = match r.below(6) {
+        0 => Exp::Iff(Box::new(x), Box::new(y)),
+        1 => Exp::Implies(Box::new(x), Box::new(y)),
+        2 => Exp::Xor(Box::new(x), Box::new(y)),
+        3 => Exp::And(vec![x, y, operand(r)]),
+        4 => Exp::Or(vec![x, y]),
+        _ => Exp::Iff(Box::new(Exp::Implies(Box::new(x), Box::new(y))), Box::new(operand(r))),
+    };
+    let ds = vec![
+        VarDecl { name: "a".into(), ty: VariableType::Boolean }, VarDecl { name: "b".into(), ty: VariableType::Boolean },
+        VarDecl { name: "c".into(), ty: VariableType::Boolean }, VarDecl { name: "y".into(), ty: VariableType::Real(-3.0, 3.0) },
+    ];
+    // value position: the logic expression is an addend
+    let lhs = Exp::BinOp(BinOp::Add, Box::new(logic.clone()), Box::new(v("y")));
+    let cmp = *r.pick(&[Comparison::LessOrEqual, Comparison::GreaterOrEqual, Comparison::Equal]);
+    let cons = vec![Constraint::new(lhs, cmp, k(1.0), if r.chance(1, 2) { "t".into() } else { String::new() })];
+    let obj = if r.chance(1, 3) { Exp::BinOp(BinOp::Add, Box::new(logic), Box::new(v("y"))) } else { v("y") };
+    let m = gen_model::build(if r.chance(1, 2) { OptimizationType::Max } else { OptimizationType::Min }, obj, cons, &ds);
+    crate::props::c01::one(&m, "logic-aux", "c08")
+}
+
+/// metamorphic check of determinism up to the order of the domain map: the same objective and constraints with the
+/// declarations in a different order must compile to the same variables, objective, offset and rows, and to the same
+/// domain as a SET (the order of `LinearModel::domain` follows the declaration order).
+fn permutation_case(r: &mut Rng, tag: &str, cfg: &ModelCfg) -> Case {
+    let (m, ds) = gen_model::model(r, cfg);
+    let mut c = crate::props::c01::one(&m, tag, "c08");
+    c.tags.push("domain-permutation".into());
+    if ds.len() < 2 { return c; }
+    let mut ds2: Vec<VarDecl> = ds.iter().map(|d| VarDecl { name: d.name.clone(), ty: d.ty }).collect();
+    match r.below(3) { 0 => ds2.reverse(), 1 => { let k = 1 + r.below(ds2.len() - 1); ds2.rotate_left(k); } _ => { let i = r.below(ds2.len()); let j = r.below(ds2.len()); ds2.swap(i, j); } }
+    let m2 = gen_model::build(m.objective().objective_type.clone(), m.objective().rhs.clone(), m.constraints().to_vec(), &ds2);
+    let a = Linearizer::linearize(m);
+    let b = Linearizer::linearize(m2);
+    match (&a, &b) {
+        (Ok(la), Ok(lb)) => {
+            let rows = |l: &rooc::LinearModel| l.constraints().iter().map(|c| format!("{}|{:?}|{:?}|{:?}", c.name(), c.coefficients().iter().map(|x| x.to_bits()).collect::<Vec<_>>(), c.constraint_type(), c.rhs().to_bits())).collect::<Vec<_>>();
+            let mut da: Vec<String> = la.domain().iter().map(|(n, d)| format!("{}:{:?}", n, d.get_type())).collect();
+            let mut db: Vec<String> = lb.domain().iter().map(|(n, d)| format!("{}:{:?}", n, d.get_type())).collect();
+            da.sort(); db.sort();
+            let same = la.variables() == lb.variables() && rows(la) == rows(lb)
+                && la.objective().iter().map(|x| x.to_bits()).collect::<Vec<_>>() == lb.objective().iter().map(|x| x.to_bits()).collect::<Vec<_>>()
+                && la.objective_offset().to_bits() == lb.objective_offset().to_bits() && da == db;
+            if !same { c.impl_violation = Some("the compiled model depends on the ORDER of the variable declarations".into()); }
+            else { c.tags.push("permutation-invariant".into()); }
+        }
+        (Err(ea), Err(eb)) => {
+            if crate::props::c01::lin_error(ea) != crate::props::c01::lin_error(eb) {
+                c.impl_violation = Some(format!("the compilation error depends on the order of the declarations: {} vs {}", crate::props::c01::lin_error(ea), crate::props::c01::lin_error(eb)));
+            } else { c.tags.push("permutation-invariant".into()); }
+        }
+        _ => { c.impl_violation = Some("compilation succeeds or fails depending on the order of the variable declarations".into()); }
+    }
+    c
+}
+
+fn has_huge_literal(e: &Exp) -> bool {
+    match e {
+        Exp::Number(v) => v.is_finite() && (v.abs() >= 1e100 || (*v != 0.0 && v.abs() <= 1e-100)),
+        Exp::Variable(_) => false,
+        Exp::Abs(x) | Exp::Not(x) | Exp::UnOp(_, x) => has_huge_literal(x),
+        Exp::Min(es) | Exp::Max(es) | Exp::And(es) | Exp::Or(es) => es.iter().any(has_huge_literal),
+        Exp::Xor(x, y) | Exp::Implies(x, y) | Exp::Iff(x, y) | Exp::BinOp(_, x, y) => has_huge_literal(x) || has_huge_literal(y),
+    }
+}
+
+/// finite literals whose folded product / quotient leaves the range of f64: the exact-arithmetic theorem
+/// `finite_out_partial` cannot see this region (root-cause flag `huge-literal`).
+fn overflow_case(r: &mut Rng) -> Case {
+    let v = |n: &str| Exp::Variable(n.into());
+    let k = |x: f64| Exp::Number(x);
+    let mul = |a: Exp, b: Exp| Exp::BinOp(BinOp::Mul, Box::new(a), Box::new(b));
+    let div = |a: Exp, b: Exp| Exp::BinOp(BinOp::Div, Box::new(a), Box::new(b));
+    let add = |a: Exp, b: Exp| Exp::BinOp(BinOp::Add, Box::new(a), Box::new(b));
+    let big = |r: &mut Rng| *r.pick(&[1e200, 1e300, -1e250, 1e154, 1e155, 1.7e308, -1e308]);
+    let tiny = |r: &mut Rng| *r.pick(&[1e-200, 1e-300, -1e-250, 5e-324]);
+    let lhs = match r.below(6) {
+        0 => mul(k(big(r)), mul(k(big(r)), v("x"))),
+        1 => div(div(v("x"), k(tiny(r))), k(tiny(r))),
+        2 => add(mul(k(big(r)), v("x")), mul(k(big(r)), v("x"))),
+        3 => mul(mul(k(big(r)), k(big(r))), v("y")),
+        4 => add(v("x"), mul(k(big(r)), k(big(r)))),
+        _ => mul(k(big(r)), add(mul(k(big(r)), v("x")), v("y"))),
+    };
+    let rhs = if r.chance(1, 4) { mul(k(big(r)), k(big(r))) } else { k(1.0) };
+    let ds = vec![
+        VarDecl { name: "x".into(), ty: VariableType::NonNegativeReal(0.0, f64::INFINITY) },
+        VarDecl { name: "y".into(), ty: VariableType::Real(-3.0, 3.0) },
+    ];
+    let cmp = *r.pick(&[Comparison::LessOrEqual, Comparison::GreaterOrEqual, Comparison::Equal]);
+    let cons = vec![Constraint::new(lhs, cmp, rhs, if r.chance(1, 2) { "big".into() } else { String::new() })];
+    let obj = if r.chance(1, 4) { mul(k(big(r)), mul(k(big(r)), v("x"))) } else { v("x") };
+    let m = gen_model::build(OptimizationType::Min, obj, cons, &ds);
+    let huge = std::iter::once(&m.objective().rhs).chain(m.constraints().iter().flat_map(|c| [c.lhs(), c.rhs()])).any(has_huge_literal);
+    let mut c = crate::props::c01::one(&m, "overflow", "c08");
+    if huge {
+        c.sig = Some(match c.sig.take() { Some(s) => format!("{},huge-literal", s), None => "huge-literal".into() });
+    }
+    c
+}
+
 pub fn generate(seed: u64, n: usize, thorough: bool, corpus: Option<&str>) -> Vec<Case> {
     let mut out = crate::props::c01::generate_for("c08", seed.wrapping_add(2000), n, thorough, corpus);
     let mut r = Rng::new(seed ^ 0xC08).fork();
@@ -99,6 +219,13 @@ pub fn generate(seed: u64, n: usize, thorough: bool, corpus: Option<&str>) -> Ve
         check_missing_bounds(&m, &mut c);
         out.push(c);
     }
+    for _ in 0..(n / 10).max(30) { out.push(logic_aux_case(&mut r)); }
+    let cfgs = crate::props::c01::configs();
+    for i in 0..(n / 5).max(40) {
+        let (tag, cfg) = &cfgs[i % cfgs.len()];
+        out.push(permutation_case(&mut r, tag, cfg));
+    }
+    for _ in 0..(n / 20).max(20) { out.push(overflow_case(&mut r)); }
     let _ = sx::num;
     out
 }
